@@ -780,7 +780,13 @@ func gen(t *rapid.T) Case {
 	for i := 0; i < n && len(pos) > 0; i++ {
 		p := pos[rapid.IntRange(0, len(pos)-1).Draw(t, "pos")]
 		kind := strings.TrimPrefix(p.Kind, "Ref:")
-		form := rapid.SampledFrom(hostileForms(kind, c.Root)).Draw(t, "form")
+		forms := hostileForms(kind, c.Root)
+		if c.Reuse {
+			// the document the same loader loaded before (first.json, next to the root): what the loader still
+			// holds of it is no licence to read its location again
+			forms = append(forms, "first.json#/components/schemas/A/nope", "first.json#/components/headers/Nope/schema", "./first.json#/components/schemas/A/properties/x", "first.json#/components/schemas/A")
+		}
+		form := rapid.SampledFrom(forms).Draw(t, "form")
 		setAt(d, p.Ptr, M{"$ref": form})
 		c.Form, c.PosKind = form, posName(p)
 	}
